@@ -147,5 +147,7 @@ def extra(ex, ck, worst):
     for c, m, w in zip(rcases, run_model(rcases), rwant):
         if m.strip() != w.strip():
             ck.mismatch("regex-scanner", c, m, w)
+    from scale import many_chunks_rounds
+    many_chunks_rounds(ck, c09_bound)
     ck.cov["worst_case_tests"] = {f"{k[0]}/n={k[1]}": {"tests": v, "bound": c09_bound(k[1])}
                                   for k, v in worst.items()}
